@@ -33,12 +33,28 @@
     space between elements (none, spaces, tabs, newlines, CR LF, indentation), any white space before
     the closing `>` / `/>` of a start tag that has attributes, the self-closing or the empty-pair form for
     empty elements, and any white space around the document; `C12_reader_ksr` adds what precedes `<KSR`.
-    Still fixed by the rendering (see the section at the end): one space before each attribute, the
-    attributes in the order given.
+    Fixed by THAT rendering: one space before each attribute, the attributes in the order given, the
+    prolog condition stated semantically.  The next three items lift these restrictions.
+  * `C12_reader_layout` (and `_depth` / `_ksr` / `_py`) — the same with ANY non-empty one-line white space
+    in front of every attribute (between the element name and the first attribute, between two attributes):
+    `WTree` / `renderW` of KskmProofs/Lemmas/XmlRenderW.lean; `renderT` is the instance "one space"
+    (`C12_reader_partial_of_layout`).  `attr_ws_boundaries`: where the reader stops agreeing — a line feed
+    between two attributes or before `>`, white space around `=`.
+  * `C12_attr_order_reader` — permuting the attributes of any elements of the document (distinct names within
+    a start tag) changes the reader's result only up to `DictEq`, Python's `==` on dicts
+    (KskmProofs/Lemmas/XmlDictEq.lean); `C12_attr_order` — and `request_from_xml` / `response_from_xml` return
+    the SAME object (or raise the same error): the glue cannot tell `DictEq` values apart
+    (`requestFromDict_congr` / `responseFromDict_congr`, KskmProofs/Lemmas/XmlGlueEq.lean).
+  * `C12_reader_prolog` — "anything preceding the KSR element is ignored" for a GRAMMAR of prologs (XML
+    declaration, processing instructions, comments, DOCTYPE, white space — none containing the four
+    characters `<KSR`); `ksr_in_comment_counterexample`: a comment that does contain `<KSR` is not ignored.
 -/
 import Kskm.XmlGlue
 import KskmProofs.Lemmas.XmlStore
 import KskmProofs.Lemmas.XmlReader
+import KskmProofs.Lemmas.XmlReaderW
+import KskmProofs.Lemmas.XmlGlueEq
+import KskmProofs.Lemmas.XmlProlog
 namespace Kskm.C12
 open Kskm.Xml
 
@@ -583,20 +599,28 @@ theorem C12_reader_py (t : PTree) (hp : PlainT pyClasses t) (hh : heightT t ≤ 
       theorem C12_reader : ∀ (t : PlainXml) (ℓ : Layout), parse (render ℓ t) = dictOf t
 
   with `ℓ` ranging over: white space between elements, spaces/tabs inside start tags, attribute order,
-  self-closing vs empty-pair form, prolog/comments before `<KSR`.  Proved above (`C12_reader_partial`,
-  `C12_reader_ksr`): every such layout EXCEPT
-    (1) the white space in front of each attribute is exactly one space (several spaces / tabs between
-        attributes are handled by the reader — `\s*` in the attribute expression, the shortest-`ws`
-        rule in the tag expression — and are exercised by harness/corr_C12.py, but `attrsText` does
-        not vary them yet);
+  self-closing vs empty-pair form, prolog/comments before `<KSR`.  `C12_reader_partial` / `C12_reader_ksr`
+  above prove it for every such layout EXCEPT
+    (1) the white space in front of each attribute is exactly one space;
     (2) attribute ORDER: `dictOf` lists the attributes in document order; a Python dict compares
         without order, so the statement for permuted attributes needs `dictOf` up to permutation of the
-        `attrs` entries (the reader itself is order-agnostic: `parseAttrs_plain` folds `dictSet`);
+        `attrs` entries;
     (3) the prolog condition is stated semantically (the first `<KSR` is the root element) rather than
         as a grammar of XML declarations and comments.
+  Sections 5–7 below close the three gaps:
+    (1) `C12_reader_layout`: any non-empty one-line white space in front of every attribute;
+    (2) `C12_attr_order_reader` / `C12_attr_order`: attribute order, up to Python's dict equality at the
+        reader and up to `=` at `request_from_xml` / `response_from_xml`;
+    (3) `C12_reader_prolog`: a grammar of prologs.
+  so that the statement reads: for every plain tree, every layout of it and every order of the attributes
+  within each start tag, the reader returns a dict that is `==` to the standard reading, and the loaders
+  return the same object.  (The equality is `=` for a fixed attribute order and `DictEq` across orders —
+  Python's own notion; `dictOf` of a `PTree` fixes one order, the document's.)
   Excluded by `PlainT` because the reader really differs there (findings, replayed by the harness):
   white space before `>` in a start tag WITHOUT attributes (F17: `Gap` demands none), `>` inside an
-  attribute value (F18: `PlainAttr`), an attribute-less self-closing tag `<n/>` (not in the schema).
+  attribute value (F18: `PlainAttr`), an attribute-less self-closing tag `<n/>` (not in the schema); and, in
+  a start tag WITH attributes, a line feed anywhere but directly after the element name, or white space
+  around `=` (`attr_ws_boundaries`; the property is about start tags on one line).
   An element may not contain a descendant of its own name (`occursT`): `_find_end_of_element` supports
   exactly one level of same-name nesting and only when the outer start tag has the other form (with /
   without attributes) than the inner one — `nested_same_name_witness` below shows both sides.
@@ -611,6 +635,203 @@ theorem nested_same_name_witness (sw : Switches) :
     parse pyClasses sw "<Signature><Signature>WL7</Signature></Signature>".toList = .err .value := by
   obtain ⟨a, b⟩ := sw
   cases a <;> cases b <;> exact ⟨by decide +kernel, by decide +kernel⟩
+
+/-! ## 5. Any white space in front of the attributes -/
+
+/-- under the classes of the running Python `\s` and `str.strip()` agree, so the white space admitted in
+    front of an attribute is simply: non-empty, every character white space, no line feed -/
+theorem attrWs_py (w : List Char) :
+    AttrWs pyClasses w ↔ w ≠ [] ∧ ∀ c ∈ w, pyClasses.isSpace c = true ∧ c ≠ '\n' := by
+  have he : pyClasses.isStrip = pyClasses.isSpace := by
+    simp only [pyClasses]
+    rw [show KskmGen.stripRanges = KskmGen.spaceRanges from by decide +kernel]
+  unfold AttrWs
+  rw [he]
+  constructor
+  · exact fun h => ⟨h.1, fun c hc => ⟨(h.2 c hc).1, (h.2 c hc).2.2⟩⟩
+  · exact fun h => ⟨h.1, fun c hc => ⟨(h.2 c hc).1, (h.2 c hc).1, (h.2 c hc).2⟩⟩
+
+/-- **C12_reader, any layout of the start tags.**  For ANY character classes with the sanity properties,
+    either behaviour of the attribute loop, every plain tree `w` of at most five levels of element nesting —
+    with ANY non-empty one-line white space in front of every attribute, any white space before `>` / `/>`,
+    any white space between elements, either form of empty elements — and every white space around it:
+    the reader's result is exactly the dict of the standard reading, in which none of that white space
+    appears (`eraseT` forgets it). -/
+theorem C12_reader_layout (cls : Classes) (hs : Sane cls) (sw : Switches) (w : WTree) (hp : PlainW cls w)
+    (hh : heightW w ≤ 5) (lead trail : List Char) (hl : Ws cls lead) (ht : Ws cls trail) :
+    parse cls sw (lead ++ renderW w ++ trail) = .ok (dictOf (eraseT w)) := by
+  have := parseRec_levelW hs sw 5 w .nil lead trail hp trivial hl ht hh (by simp [heightWF])
+  simp only [levelTextW, renderWF, List.append_nil, eraseF, storeF] at this
+  unfold parse
+  rw [this]
+  simp [dictOf, storeElement, List.lookup, eraseT_name]
+
+/-- the recursion bound is the only size limit -/
+theorem C12_reader_layout_depth (cls : Classes) (hs : Sane cls) (sw : Switches) (d : Nat) (w : WTree)
+    (hp : PlainW cls w) (hh : heightW w ≤ d) :
+    parse cls sw (renderW w) d = .ok (dictOf (eraseT w)) := by
+  have := parseRec_levelW hs sw d w .nil [] [] hp trivial (by intro c hc; simp at hc) (by intro c hc; simp at hc)
+    hh (by simp [heightWF])
+  simp only [levelTextW, renderWF, List.append_nil, List.nil_append, eraseF, storeF] at this
+  unfold parse
+  rw [this]
+  simp [dictOf, storeElement, List.lookup, eraseT_name]
+
+/-- anything preceding the KSR element is ignored (semantic condition; `C12_reader_prolog` has a grammar) -/
+theorem C12_reader_layout_ksr (cls : Classes) (hs : Sane cls) (sw : Switches) (w : WTree) (hp : PlainW cls w)
+    (hh : heightW w ≤ 5) (prolog trail : List Char) (ht : Ws cls trail)
+    (hfirst : indexFrom kKSRopen (prolog ++ renderW w ++ trail) 0 = some prolog.length) :
+    parseKsr cls sw (prolog ++ renderW w ++ trail) = .ok (dictOf (eraseT w)) := by
+  unfold parseKsr
+  rw [hfirst]
+  simp only
+  have : (prolog ++ renderW w ++ trail).drop prolog.length = [] ++ renderW w ++ trail := by
+    rw [List.append_assoc, List.drop_left']
+    · simp
+    · rfl
+  rw [this]
+  exact C12_reader_layout cls hs sw w hp hh [] trail (by intro c hc; simp at hc) ht
+
+/-- under the classes of the running Python, for the code in /repo whatever its switch values -/
+theorem C12_reader_layout_py (w : WTree) (hp : PlainW pyClasses w) (hh : heightW w ≤ 5) (lead trail : List Char)
+    (hl : Ws pyClasses lead) (ht : Ws pyClasses trail) :
+    parse pyClasses pySwitches (lead ++ renderW w ++ trail) = .ok (dictOf (eraseT w)) :=
+  C12_reader_layout pyClasses pyClasses_sane pySwitches w hp hh lead trail hl ht
+
+/-- `C12_reader_partial` is the instance "exactly one space in front of each attribute" of
+    `C12_reader_layout` (for classes whose `strip()` removes the space) -/
+theorem C12_reader_partial_of_layout (cls : Classes) (hs : Sane cls) (hsp : cls.isStrip ' ' = true) (sw : Switches)
+    (t : PTree) (hp : PlainT cls t) (hh : heightT t ≤ 5) (lead trail : List Char) (hl : Ws cls lead)
+    (ht : Ws cls trail) : parse cls sw (lead ++ renderT t ++ trail) = .ok (dictOf t) := by
+  have := C12_reader_layout cls hs sw (ofP t) (plainW_ofP hs hsp t hp) (by rw [heightW_ofP]; exact hh) lead trail hl ht
+  rwa [renderW_ofP, eraseT_ofP] at this
+
+/-- **Where the reader stops agreeing with XML inside a start tag that has attributes** (all replayed on
+    the real code): a line feed between two attributes, or between the last attribute and `>`, is a
+    ValueError (the start-tag expression does not cross a line); white space around `=` is never read
+    (ValueError on the repaired tree, no termination on the pinned one — F1).  The reader is more lenient
+    than XML in two places: it reads a line feed directly after the element name, and NO white space at
+    all between two attributes. -/
+theorem attr_ws_boundaries (sw : Switches) :
+    parse pyClasses sw "<a x=\"1\"\ny=\"2\">v</a>".toList = .err .value ∧
+    parse pyClasses sw "<a x=\"1\" y=\"2\"\n>v</a>".toList = .err .value ∧
+    parse pyClasses sw "<a x =\"1\">v</a>".toList =
+      (if sw.attrsLoopFailsOnNoMatch then .err .value else .outOfFuel) ∧
+    parse pyClasses sw "<a x= \"1\">v</a>".toList =
+      (if sw.attrsLoopFailsOnNoMatch then .err .value else .outOfFuel) ∧
+    parse pyClasses sw "<a\nx=\"1\" y=\"2\">v</a>".toList =
+      .ok [("a".toList, d [("attrs", d [("x", s "1"), ("y", s "2")]), ("value", s "v")])] ∧
+    parse pyClasses sw "<a x=\"1\"y=\"2\">v</a>".toList =
+      .ok [("a".toList, d [("attrs", d [("x", s "1"), ("y", s "2")]), ("value", s "v")])] := by
+  obtain ⟨a, b⟩ := sw
+  cases a <;> cases b <;>
+    exact ⟨by decide +kernel, by decide +kernel, by decide +kernel, by decide +kernel, by decide +kernel,
+      by decide +kernel⟩
+
+/-! ## 6. Attribute order -/
+
+/-- **Attribute order, at the reader.**  Two plain documents that differ in the ORDER of the attributes
+    within their start tags (and in any insignificant white space: `AttrPermT` compares the standard
+    readings), attribute names distinct within each start tag: the reader returns two dicts that are equal
+    as Python values (`DictEq`: `==` on dicts, which ignores insertion order, recursively). -/
+theorem C12_attr_order_reader (cls : Classes) (hs : Sane cls) (sw : Switches) (w w' : WTree)
+    (hp : PlainW cls w) (hp' : PlainW cls w') (hh : heightW w ≤ 5) (hh' : heightW w' ≤ 5)
+    (hperm : AttrPermT (eraseT w) (eraseT w')) (hu : UniqueAttrsT (eraseT w))
+    (lead trail lead' trail' : List Char) (hl : Ws cls lead) (ht : Ws cls trail) (hl' : Ws cls lead')
+    (ht' : Ws cls trail') :
+    ∃ r r', parse cls sw (lead ++ renderW w ++ trail) = .ok r ∧ parse cls sw (lead' ++ renderW w' ++ trail') = .ok r' ∧
+      DictEq (.dict r) (.dict r') :=
+  ⟨_, _, C12_reader_layout cls hs sw w hp hh lead trail hl ht, C12_reader_layout cls hs sw w' hp' hh' lead' trail' hl' ht',
+    dictOf_attrPerm _ _ hperm hu⟩
+
+/-- a loader built from `parse_ksr` and a glue function that cannot tell `DictEq` values apart gives the
+    same outcome on two texts that the reader reads to `DictEq` dicts -/
+theorem fromXmlWith_congr {α} (cls : Classes) (sw : Switches) (glue : XVal → Res α)
+    (hglue : ∀ a b, DictEq a b → glue a = glue b) (x x' : List Char) (r r' : Dict)
+    (h : parseKsr cls sw x = .ok r) (h' : parseKsr cls sw x' = .ok r') (he : DictEq (.dict r) (.dict r')) :
+    fromXmlWith cls sw glue x = fromXmlWith cls sw glue x' := by
+  unfold fromXmlWith
+  rw [h, h']
+  simp only
+  rw [hglue _ _ he]
+
+/-- **Attribute order, through the loaders.**  Two plain KSR/SKR documents, each behind a prolog of the
+    grammar, that differ in the order of attributes within start tags (and in layout): `request_from_xml`
+    returns the SAME `Request` — or raises the same error —, and so does `response_from_xml`; for either
+    value of every behaviour switch. -/
+theorem C12_attr_order (cls : Classes) (hs : Sane cls) (sw : Switches) (gs : GlueSwitches) (w w' : WTree)
+    (hn : w.name = "KSR".toList) (hn' : w'.name = "KSR".toList)
+    (hp : PlainW cls w) (hp' : PlainW cls w') (hh : heightW w ≤ 5) (hh' : heightW w' ≤ 5)
+    (hperm : AttrPermT (eraseT w) (eraseT w')) (hu : UniqueAttrsT (eraseT w))
+    (items items' : List PrologItem) (hi : ∀ it ∈ items, it.Ok) (hi' : ∀ it ∈ items', it.Ok)
+    (trail trail' : List Char) (ht : Ws cls trail) (ht' : Ws cls trail') :
+    requestFromXmlL cls sw gs (renderProlog items ++ renderW w ++ trail) =
+      requestFromXmlL cls sw gs (renderProlog items' ++ renderW w' ++ trail') ∧
+    responseFromXmlL cls sw gs (renderProlog items ++ renderW w ++ trail) =
+      responseFromXmlL cls sw gs (renderProlog items' ++ renderW w' ++ trail') := by
+  have h1 := C12_reader_layout_ksr cls hs sw w hp hh (renderProlog items) trail ht
+    (index_after_skip _ _ _ (skip_prolog items hi) (ksr_prefix_renderW w hn))
+  have h2 := C12_reader_layout_ksr cls hs sw w' hp' hh' (renderProlog items') trail' ht'
+    (index_after_skip _ _ _ (skip_prolog items' hi') (ksr_prefix_renderW w' hn'))
+  have he := dictOf_attrPerm _ _ hperm hu
+  exact ⟨fromXmlWith_congr cls sw _ (fun _ _ => requestFromDict_congr gs) _ _ _ _ h1 h2 he,
+    fromXmlWith_congr cls sw _ (fun _ _ => responseFromDict_congr gs) _ _ _ _ h1 h2 he⟩
+
+/-- … in particular for `request_from_xml` / `response_from_xml` of the tree in /repo under the running
+    Python's character classes: the two files load to the same object or fail alike -/
+theorem C12_attr_order_py (w w' : WTree) (hn : w.name = "KSR".toList) (hn' : w'.name = "KSR".toList)
+    (hp : PlainW pyClasses w) (hp' : PlainW pyClasses w') (hh : heightW w ≤ 5) (hh' : heightW w' ≤ 5)
+    (hperm : AttrPermT (eraseT w) (eraseT w')) (hu : UniqueAttrsT (eraseT w))
+    (items items' : List PrologItem) (hi : ∀ it ∈ items, it.Ok) (hi' : ∀ it ∈ items', it.Ok)
+    (trail trail' : List Char) (ht : Ws pyClasses trail) (ht' : Ws pyClasses trail') (x x' : String)
+    (hx : x.toList = renderProlog items ++ renderW w ++ trail)
+    (hx' : x'.toList = renderProlog items' ++ renderW w' ++ trail') :
+    requestFromXml x = requestFromXml x' ∧ responseFromXml x = responseFromXml x' := by
+  obtain ⟨h1, h2⟩ := C12_attr_order pyClasses pyClasses_sane pySwitches pyGlueSwitches w w' hn hn' hp hp' hh hh' hperm hu
+    items items' hi hi' trail trail' ht ht'
+  unfold requestFromXml responseFromXml
+  rw [hx, hx', h1, h2]
+  exact ⟨rfl, rfl⟩
+
+/-! ## 7. What may precede the KSR element -/
+
+/-- **Anything preceding the KSR element is ignored**, for every prolog of the grammar of
+    KskmProofs/Lemmas/XmlProlog.lean: XML declaration / processing instructions `<?…?>`, comments `<!--…-->`,
+    `<!DOCTYPE…>`, `<`-free text between them — in any number and order, provided the four characters `<KSR` do
+    not occur inside any of them. -/
+theorem C12_reader_prolog (cls : Classes) (hs : Sane cls) (sw : Switches) (items : List PrologItem)
+    (hi : ∀ it ∈ items, it.Ok) (w : WTree) (hn : w.name = "KSR".toList) (hp : PlainW cls w) (hh : heightW w ≤ 5)
+    (trail : List Char) (ht : Ws cls trail) :
+    parseKsr cls sw (renderProlog items ++ renderW w ++ trail) = .ok (dictOf (eraseT w)) :=
+  C12_reader_layout_ksr cls hs sw w hp hh (renderProlog items) trail ht
+    (index_after_skip _ _ _ (skip_prolog items hi) (ksr_prefix_renderW w hn))
+
+/-- the same for the one-space rendering `renderT` of a `PTree` (the form `C12_reader_ksr` has, with the
+    grammar in place of its semantic hypothesis) -/
+theorem C12_reader_prolog_T (cls : Classes) (hs : Sane cls) (sw : Switches) (items : List PrologItem)
+    (hi : ∀ it ∈ items, it.Ok) (t : PTree) (hn : t.name = "KSR".toList) (hp : PlainT cls t) (hh : heightT t ≤ 5)
+    (trail : List Char) (ht : Ws cls trail) :
+    parseKsr cls sw (renderProlog items ++ renderT t ++ trail) = .ok (dictOf t) := by
+  apply C12_reader_ksr cls hs sw t hp hh (renderProlog items) trail ht
+  have hpre : kKSRopen <+: renderT t := by
+    have := ksr_prefix_renderW (ofP t) (by cases t <;> simpa [ofP, WTree.name, PTree.name] using hn)
+    rwa [renderW_ofP] at this
+  exact index_after_skip _ _ _ (skip_prolog items hi) hpre
+
+/-- **The restriction is necessary**: a comment that contains `<KSR` is not ignored — `parse_ksr` starts
+    reading inside the comment.  Here the reader returns a dict whose `KSR` is a STRING (the rest of the
+    comment and the real start tag), where the standard reading has the element with its attribute; the
+    glue then raises TypeError.  (Replayed on the real code: `{'KSR': '--><KSR id="1">v'}`.) -/
+theorem ksr_in_comment_counterexample (sw : Switches) :
+    parseKsr pyClasses sw "<!-- <KSR> --><KSR id=\"1\">v</KSR>".toList =
+      .ok [("KSR".toList, s "--><KSR id=\"1\">v")] ∧
+    parseKsr pyClasses sw "<!-- no such text --><KSR id=\"1\">v</KSR>".toList =
+      .ok [("KSR".toList, d [("attrs", d [("id", s "1")]), ("value", s "v")])] ∧
+    ∀ gs, requestFromDict gs (.dict [("KSR".toList, s "--><KSR id=\"1\">v")]) = err .type := by
+  obtain ⟨a, b⟩ := sw
+  cases a <;> cases b <;>
+    exact ⟨by decide +kernel, by decide +kernel,
+      fun ⟨g1, g2, g3, g4⟩ => by cases g1 <;> cases g2 <;> cases g3 <;> cases g4 <;> decide +kernel⟩
 
 /-! ## Non-vacuity -/
 
@@ -649,5 +870,67 @@ example : storeAll [] "Key".toList [s "1"] = [("Key".toList, s "1")] := by decid
 /-- distinct expirations: either document order sorts to the same list -/
 example : sortByExpiration [tieA, { tieB with expiration := 5 }] = sortByExpiration [{ tieB with expiration := 5 }, tieA] :=
   C12_order _ _ (List.Perm.swap _ _ _) (by decide)
+
+/-! ### non-vacuity of sections 5–7 -/
+
+/-- `exampleTree` with tabs, several blanks and a form feed in front of the attributes, and the attributes
+    of `KSR` and `RSA` in the other order -/
+def exampleW : WTree :=
+  .node "KSR".toList [("  ".toList, ("domain".toList, ".".toList)), ("\t ".toList, ("id".toList, "4fe9bb10".toList))] []
+    "\n  ".toList
+    (.node "Request".toList [] [] "\n    ".toList
+      (.leaf "TTL".toList [] [] "172800".toList)
+      (.cons "\n    ".toList (.empty "RSA".toList [("\t".toList, ("exponent".toList, "65537".toList)),
+          (" \x0c ".toList, ("size".toList, "2048".toList))] [])
+        (.cons "\n    ".toList (.leaf "Signer".toList [(" ".toList, ("keyIdentifier".toList, "KC1".toList))] " ".toList [])
+          (.cons "\t".toList (.empty "Signer".toList [("   ".toList, ("keyIdentifier".toList, "KC2".toList))] " ".toList) .nil)))
+      "\n  ".toList)
+    .nil "\n".toList
+
+example : renderW exampleW =
+    ("<KSR  domain=\".\"\t id=\"4fe9bb10\">\n  <Request>\n    <TTL>172800</TTL>\n    <RSA\texponent=\"65537\" \x0c size=\"2048\"/>" ++
+     "\n    <Signer keyIdentifier=\"KC1\" ></Signer>\t<Signer   keyIdentifier=\"KC2\" />\n  </Request>\n</KSR>").toList := by
+  decide +kernel
+
+set_option synthInstance.maxSize 4096 in
+set_option synthInstance.maxHeartbeats 400000 in
+theorem exampleW_plain : PlainW pyClasses exampleW ∧ heightW exampleW ≤ 5 := by
+  simp only [exampleW, PlainW, PlainWF, PlainWAttrs, AttrWs, occursW, occursWF, PlainName, PlainAttr, PlainText, Gap, Ws,
+    heightW, heightWF, wplain]
+  decide +kernel
+
+/-- `exampleW` is `exampleTree` up to layout and attribute order, and no start tag repeats an attribute -/
+theorem exampleW_perm : AttrPermT (eraseT exampleW) exampleTree ∧ UniqueAttrsT (eraseT exampleW) := by
+  simp only [exampleW, exampleTree, eraseT, eraseF, wplain, AttrPermT, AttrPermF, UniqueAttrsT, UniqueAttrsF, List.map]
+  refine ⟨⟨trivial, List.Perm.swap _ _ _, ⟨trivial, List.Perm.refl _, ⟨trivial, List.Perm.refl _, trivial⟩,
+    ⟨trivial, List.Perm.swap _ _ _⟩, ⟨trivial, List.Perm.refl _, trivial⟩, ⟨trivial, List.Perm.refl _⟩, trivial⟩,
+    trivial⟩, ?_⟩
+  decide
+
+/-- a prolog of the grammar: declaration, line break, a comment with markup in it, line break -/
+def examplePrologItems : List PrologItem :=
+  [.pi "xml version=\"1.0\" encoding=\"UTF-8\"".toList, .space "\n".toList,
+   .comment " generated by <b>KSRSigner</b>; KSR follows ".toList, .space "\n".toList]
+
+example : renderProlog examplePrologItems =
+    "<?xml version=\"1.0\" encoding=\"UTF-8\"?>\n<!-- generated by <b>KSRSigner</b>; KSR follows -->\n".toList := by
+  decide +kernel
+
+theorem examplePrologItems_ok : ∀ it ∈ examplePrologItems, it.Ok := by
+  simp only [examplePrologItems, List.mem_cons, List.mem_nil_iff, or_false]
+  rintro it (rfl | rfl | rfl | rfl) <;> simp only [PrologItem.Ok, NoKsr] <;> decide +kernel
+
+/-- the reader reads the differently laid out, differently ordered document behind that prolog, to a dict
+    that is `==` to the one it reads from `exampleTree` -/
+example : ∃ r r', parseKsr pyClasses pySwitches (renderProlog examplePrologItems ++ renderW exampleW ++ "\n".toList) = .ok r ∧
+    parse pyClasses pySwitches (renderT exampleTree ++ "\n".toList) = .ok r' ∧ DictEq (.dict r) (.dict r') := by
+  refine ⟨_, _, C12_reader_prolog pyClasses pyClasses_sane pySwitches _ examplePrologItems_ok exampleW rfl exampleW_plain.1
+    exampleW_plain.2 "\n".toList (by unfold Ws; decide +kernel), ?_, dictOf_attrPerm _ _ exampleW_perm.1 exampleW_perm.2⟩
+  have := C12_reader_py exampleTree exampleTree_plain.1 exampleTree_plain.2 [] "\n".toList
+    (by intro c hc; simp at hc) (by unfold Ws; decide +kernel)
+  simpa using this
+
+/-- the two dicts differ as lists (document order of the attributes) — `DictEq` is not `=` -/
+example : dictOf (eraseT exampleW) ≠ dictOf exampleTree := by decide +kernel
 
 end Kskm.C12
